@@ -178,6 +178,8 @@ def generate(repo):
     need(r"if\s*\(\s*status\s*==\s*LZMA_STREAM_END\s*\)\s*return\s+false\s*;\s*HandleError\s*\(\s*status\s*\)\s*;", xz_p, "XZip::Process end test")
     need(r"if\s*\(\s*!amount\s*\)\s*action_\s*=\s*LZMA_FINISH\s*;", xzb, "XZip::SetInput switches to LZMA_FINISH on empty input")
     need(r"action_\s*\(\s*LZMA_RUN\s*\)", xzb, "XZip initial action LZMA_RUN")
+    # no memory limit on the xz decoder: files written with a large dictionary (xz -9) must be readable
+    need(r"lzma_stream_decoder\s*\(\s*&stream_\s*,\s*UINT64_MAX\s*,\s*0\s*\)", xzb, "lzma_stream_decoder(&stream_, UINT64_MAX, 0)")
 
     def codes(names):
         try:
